@@ -194,8 +194,12 @@ func (sp *ServiceProvider) Metadata() *EntityDescriptor {
 		for _, intermediate := range sp.Intermediates {
 			certBytes = append(certBytes, intermediate.Raw...)
 		}
-		keyDescriptors = []KeyDescriptor{
-			{
+		// Only RSA key transport is implemented for decryption, so the
+		// certificate is advertised for encryption only if it holds an RSA key.
+		// Advertising e.g. an ECDSA certificate would make a conforming IdP
+		// either fail or produce an assertion that we cannot decrypt.
+		if _, ok := sp.Certificate.PublicKey.(*rsa.PublicKey); ok {
+			keyDescriptors = append(keyDescriptors, KeyDescriptor{
 				Use: "encryption",
 				KeyInfo: KeyInfo{
 					X509Data: X509Data{
@@ -210,7 +214,7 @@ func (sp *ServiceProvider) Metadata() *EntityDescriptor {
 					{Algorithm: "http://www.w3.org/2001/04/xmlenc#aes256-cbc"},
 					{Algorithm: "http://www.w3.org/2001/04/xmlenc#rsa-oaep-mgf1p"},
 				},
-			},
+			})
 		}
 		if len(sp.SignatureMethod) > 0 {
 			keyDescriptors = append(keyDescriptors, KeyDescriptor{
